@@ -107,6 +107,36 @@ def key_write_rules(ctx, m, op_roots, k1="K1-key-price", k3="K3-queue-time"):
     return n_key
 
 
+def fresh_stamp_rules(ctx, m, op_roots, rule="K3-fresh-stamp"):
+    """an order that is queued by an operation goes "behind every order already at that price": the queue time it is filed under
+    is taken in the SAME operation (the key handed to the insertion carries a stamp / clock read of this call, not a value stored
+    earlier - e.g. at creation). Judged at every live insertion site of the side views; returns the number of sites."""
+    stamp = stamp_fn(m)
+    n = 0
+    for f in op_roots:
+        for S in ("Bid", "Ask"):
+            q = m.sv(f, S)
+            live = q.cfg.reach_from(0)
+            for c in q.calls("insert_order"):
+                if c.b not in live or len(c.args) < 2:
+                    continue
+                n += 1
+                v = c.args[1]
+                tcomp = None
+                if v[0] == "agg" and v[1] == "tuple" and len(v[3]) == 3:
+                    tcomp = v[3][2]
+                elif v[0] == "call" and v[4] in KEY_BUILDERS and v[2]:
+                    tcomp = v[2][0]
+                kind = is_clock_like(m, tcomp, stamp) if tcomp is not None else None
+                if stamp is not None and kind == "clock":
+                    kind = None
+                ctx.check(kind is not None, rule, "%s|%s|%s" % (f.short(), S, c.sp["line"] if hasattr(c, "sp") else c.b), c.loc(),
+                          "%s-side insertion in %s files the order under a queue time taken in this operation (%s)" % (S, f.name, render(tcomp) if tcomp is not None else "?"),
+                          "%s-side insertion in %s files the order under %s: the queue time is not taken in this operation (an order created early and placed late would "
+                          "jump ahead of orders already resting at its price)" % (S, f.name, render(v)[:120]))
+    return n
+
+
 def matching_loop_rules(ctx, m, RULE="K4-loop"):
     """loop condition / exits / termination / progress / fresh best price of every matching-loop context (side views)"""
     # ---------------------------------------------------------------- K4 matching loops
@@ -306,6 +336,8 @@ def run(ctx):
     op_roots = [f_ for f_ in m.book_pub_fns() if f_.params and f_.params[0] == "self"]
     n_key = key_write_rules(ctx, m, op_roots)
     ctx.check(n_key >= 4, "K1-key-price", "census", "-", "%d live key writes analysed" % n_key)
+    n_ins = fresh_stamp_rules(ctx, m, [m.book_fn("place_order"), m.book_fn("modify_order")])
+    ctx.check(n_ins >= 4, "K3-fresh-stamp", "census", "-", "%d live insertion sites analysed (place_order / modify_order, both sides)" % n_ins)
     # creation: key = side key-builder(order.price) for the side the order is created on (judged on the views of
     # create_order specialised to either value of its side parameter: the builder may be chosen in a helper)
     create = m.book_fn("create_order")
